@@ -472,6 +472,10 @@ class ExprMixin:
             return
         for t, s in self.ev(e.test, st):
             c = self.truth(t, s)
+            cs = z3.simplify(c)
+            if z3.is_true(cs) or z3.is_false(cs):
+                yield from self.ev(e.body if z3.is_true(cs) else e.orelse, s)
+                continue
             s1, s2 = s.fork(), s.fork()
             s1.assume(c)
             s2.assume(z3.Not(c))
